@@ -201,7 +201,7 @@ class World:
 
     def emit(self, k, x=0, y=0):
         if self.cur is not None:
-            self.cur["out"].append({"k": k, "x": int(x), "y": int(y)})
+            self.cur["out"].append([k, int(x), int(y)])
 
     def in_loop(self, fn):
         asyncio.events._set_running_loop(self.loop)
